@@ -76,7 +76,7 @@ def run(chk, replay=None):
                                   'helpers': [list(h[:5]) for h in ginfo['helpers']],
                                   'killNoArgsKillsICs': ginfo['killNoArgsKillsICs'], 'addGround': ginfo['addGround']}
     broken = lean_with_retry(chk, ['Lcapy/Props/C04.lean', 'Lcapy/Props/C04Ground.lean', 'Lcapy/Props/C04Ops.lean', 'Lcapy/Props/C04Load.lean',
-                                   'Lcapy/Props/NonVacuityC04.lean'],
+                                   'Lcapy/Props/C04OnePort.lean', 'Lcapy/Props/NonVacuityC04.lean'],
                       helper_files=['Lcapy/Proofs/Linear.lean', 'Lcapy/Proofs/MNA.lean', 'Lcapy/Model/MNA.lean',
                                     'Lcapy/Model/Sources.lean', 'Lcapy/Spec/Laws.lean', 'Lcapy/Props/C03.lean',
                                     'Lcapy/Proofs/Ground.lean', 'Lcapy/Proofs/PortOps.lean', 'Lcapy/Model/PortOps.lean', 'Lcapy/Generated/PortOps.lean', 'Lcapy/Driver/C04.lean'],
